@@ -9,6 +9,8 @@
 //	select { case CH <- V: default: }        ->  trySend(CH, V)
 //	select { case CH <- V: case <-D: }       ->  sendOrDone(CH, V, D)
 //	CH <- V                                  ->  send(CH, V)
+//	select { case <-CH: default: }           ->  tryRecv(CH)
+//	<-CH  (in an expression)                 ->  recv(CH)
 //	a * b, a / b, a << b, a >> b             ->  mul(a, b), div(a, b), shl(a, b), shr(a, b)   (not both literals)
 //	log.X(args…)                             ->  log.X()          (messages are not part of the behaviour)
 //
@@ -45,6 +47,12 @@ func rewriteStmt(s ast.Stmt) ast.Stmt {
 		c1, ok1 := x.Body.List[1].(*ast.CommClause)
 		if !ok0 || !ok1 || !emptyBody(c0) || !emptyBody(c1) {
 			return s
+		}
+		if es, ok := c0.Comm.(*ast.ExprStmt); ok && c1.Comm == nil {
+			// select { case <-CH: default: }  ->  tryRecv(CH)
+			if u, ok := es.X.(*ast.UnaryExpr); ok && u.Op == token.ARROW {
+				return call("tryRecv", u.X)
+			}
 		}
 		snd, ok := c0.Comm.(*ast.SendStmt)
 		if !ok {
@@ -105,6 +113,9 @@ func rwExpr(e ast.Expr) ast.Expr {
 		}
 	case *ast.UnaryExpr:
 		x.X = rwExpr(x.X)
+		if x.Op == token.ARROW {
+			return &ast.CallExpr{Fun: ast.NewIdent("recv"), Args: []ast.Expr{x.X}}
+		}
 	case *ast.CallExpr:
 		for i := range x.Args {
 			x.Args[i] = rwExpr(x.Args[i])
@@ -272,6 +283,9 @@ func genBody(c *ex.Ctx) {
 		{"mouse.go", "", "parseMouseEvent", "pm", 0},
 		{"vaxis.go", "Vaxis", "Resize", "rz", 0},
 		{"vaxis.go", "", "parseColorReply", "pr", 0},
+		{"vaxis.go", "Vaxis", "QueryColor", "qc", 0},
+		{"vaxis.go", "Vaxis", "QueryForeground", "qf", 0},
+		{"vaxis.go", "Vaxis", "QueryBackground", "qb", 0},
 	} {
 		f := c.Parse(fn.file)
 		if f == nil {
